@@ -131,6 +131,16 @@ def reviewedSites : List (SiteKind × Nat × Bool) := [
 /-- Row predicate of `unchecked_is_unsafe`. -/
 def uncheckedOk (f : FnSig) : Bool := !(f.nameUnchecked || f.hasSafetyDoc) || f.isUnsafe
 
+/-- Row predicate of `forwarders_are_unsafe`: a pure forwarder to a callee reached in unsafe
+    context, handing its own non-`self` parameters through unvalidated, trusts its caller as
+    much as the callee does. No exception list: on the unchanged tree every such row is an
+    `unsafe fn` (`MutVector::set_len` for `Vec`, and the `trait_impls!` arm for the vectors). -/
+def forwarderOk (f : FnSig) : Bool := f.forwardsToUnsafe.isNone || f.isUnsafe
+
+/-- Rows for which the probe "call without `unsafe` must be rejected (E0133)" is mandatory. -/
+def mustBeUnsafe (f : FnSig) : Bool :=
+  f.nameUnchecked || f.hasSafetyDoc || f.forwardsToUnsafe.isSome
+
 /-- Row predicate of `name_unchecked_consistent` (translator cross-check, on keys). -/
 def nameFlagOk (f : FnSig) : Bool :=
   f.nameUnchecked == keyEndsWith f.simpleKey (key% "_unchecked") &&
@@ -142,15 +152,31 @@ def nameFlagOk (f : FnSig) : Bool :=
 def outlivedBy (f : FnSig) (i o : Region) : Bool :=
   i == o || i == .static || f.outlives.contains (i, o)
 
-/-- May an output REFERENCE be tied to an input of this role? Not to the `'borrow` of a Hip
-    value, unless the function is a borrowed-view function. -/
-def roleAllowsRef (f : FnSig) (r : InRole) : Bool :=
-  (r != .selfHip && r != .argHip) || borrowViewFns.contains f.simpleKey
+/-- The fn borrows its receiver (`&self` / `&mut self`). -/
+def hasSelfRef (f : FnSig) : Bool := f.ins.any fun i => i.role == .selfRef
+
+/-- May the output position `pos` be justified by an input of role `r`?
+    * `selfMut` (the region of a `&'p mut` field of `Self`): never when the receiver is borrowed —
+      what sits behind a `&'p mut` can only be reborrowed for the self-borrow; only a by-value
+      `self` may give it away;
+    * a REFERENCE output: not by the `'borrow` of a Hip value, and — when the receiver is
+      borrowed — not by any other lifetime parameter of `Self` either (a `&'a [T]` handed out by
+      `Drain<'a, V>::as_slice(&self)` would survive `next()`/drop of the drain); the reviewed
+      borrowed-view functions are the only exception;
+    * other positions (the `'borrow` of a returned Hip value, lifetime parameters of returned
+      guards/errors/iterators): any remaining role — those values are shared views that the
+      receiver itself could clone. -/
+def roleOk (f : FnSig) (r : InRole) (pos : OutPos) : Bool :=
+  if r == .selfMut then !hasSelfRef f
+  else if pos == .ref then
+    (r != .selfHip && r != .argHip && !(r == .selfOther && hasSelfRef f)) ||
+      borrowViewFns.contains f.simpleKey
+  else true
 
 /-- The output region is (outlived by) the region of some input that may legitimately be its
     source. -/
 def tied (f : FnSig) (o : OutRegion) : Bool :=
-  f.ins.any fun i => outlivedBy f i.region o.region && (o.pos != .ref || roleAllowsRef f i.role)
+  f.ins.any fun i => outlivedBy f i.region o.region && roleOk f i.role o.pos
 
 /-- Row predicate of `region_flow`. -/
 def flowOk (f : FnSig) : Bool :=
